@@ -114,7 +114,7 @@ func (e *env) secExact() {
 	hcs := []string{"0", "1", "r-1", "random"}
 	vcs := []string{"0", "1", "r-1", "random"}
 	zcs := []string{"0", "1", "r-1", "tau", "tau+1", "tau-1", "random"}
-	nRandom := c.Pick(60, 1200)
+	nRandom := c.Pick(60, 320)
 	nAlt := c.Pick(7, len(alterations)) // alterations per special base in quick; all of them in thorough
 	for round, cls := range []string{"random", "alpha=-1", "r-1", "1", "0"} {
 		if round > 0 && !c.Thorough() && cls != "alpha=-1" {
@@ -463,7 +463,7 @@ func (e *env) secBatch() {
 			c.Class(N + "/BatchOpenSinglePoint/documented-errors")
 		}
 		// ---- arbitrary claims ----
-		nb := c.Pick(6, 60)
+		nb := c.Pick(6, 24)
 		for _, k := range ks {
 			for i := 0; i < nb; i++ {
 				b := batchTuple{cs: make([]*big.Int, k), vs: make([]*big.Int, k), data: dataVariants[i%len(dataVariants)]}
@@ -598,11 +598,15 @@ func (e *env) secMulti() {
 		}
 		// documented errors
 		s.multiVerify(s.vk, "empty", nil, false, false, false)
-		nb := c.Pick(8, 60)
+		nb0 := c.Pick(8, 24)
 		if round > 0 {
-			nb = c.Pick(3, 20)
+			nb0 = c.Pick(3, 8)
 		}
 		for _, n := range ns {
+			nb := nb0
+			if n > 8 {
+				nb = (nb0 + 3) / 4
+			}
 			for i := 0; i < nb; i++ {
 				ts := make([]tup, n)
 				for j := range ts {
@@ -631,8 +635,11 @@ func (e *env) secMulti() {
 				positions := []int{rng.Intn(n)}
 				if c.Thorough() || n <= 2 {
 					positions = positions[:0]
-					for j := 0; j < n && j < 8; j++ {
+					for j := 0; j < n && j < 4; j++ {
 						positions = append(positions, j)
+					}
+					if n > 4 {
+						positions = append(positions, n-1)
 					}
 				}
 				for _, j := range positions {
